@@ -186,6 +186,10 @@ fn emit_wrapped_loop_choice_header(
     Ok(Value::Array(arr))
 }
 
+/// Number of elements `emit_wrapped_loop_choice_body` prepends to the branch container of
+/// a choice that has start content.
+const START_CONTENT_PREAMBLE_LEN: usize = 7;
+
 struct WrappedLoopChoiceBodyConfig<'a> {
     choice_index: usize,
     header_idx: usize,
@@ -200,6 +204,17 @@ fn emit_wrapped_loop_choice_body(
     config: WrappedLoopChoiceBodyConfig<'_>,
     context: &EmitContext,
 ) -> Result<Value, CompilerError> {
+    // A choice with start content gets a 7-element preamble prepended to its branch
+    // container (see the end of this function): indexed paths into the branch must
+    // count it.
+    let offset_scope;
+    let branch_scope = if choice.has_start_content {
+        offset_scope = branch_scope.with_param_offset(START_CONTENT_PREAMBLE_LEN);
+        &offset_scope
+    } else {
+        branch_scope
+    };
+
     let mut branch_nodes = Vec::new();
     let mut body_already_emitted = false;
 
